@@ -23,27 +23,39 @@ from .C01 import ASSUMPTIONS, TRUSTED
 
 PRE = """From QV.lib Require Import Prelude.
 From QV.model Require Import C01_Model.
+From QV.proof Require Import C01_Proofs_Store.
 From Coq Require Import String.
 Local Open Scope string_scope.
-Definition chk14 (sn st usn : list string) (v : value) (obs : node) (ld : value) :=
-  let expect := prune_load (usn ++ sn) st (norm (prune_save sn st v)) in
-  [wf_obj v; attr_nested v; node_eqb (save_file sn st v) obs; res_eqb (load_file usn [] obs) (RVal ld);
-   res_eqb (load_file usn [] (save_file sn st v)) (RVal expect); value_eqb expect ld;
+Definition chk14 (sn st usn ust : list string) (v : value) (obs : node) (ld : value) :=
+  let expect := prune_load (usn ++ sn) (ust ++ filter (fun t => negb (mem t ust)) st) (norm (prune_save sn st v)) in
+  [wf_obj v; attr_nested v; node_eqb (save_file sn st v) obs; res_eqb (load_file usn ust obs) (RVal ld);
+   res_eqb (load_file usn ust (save_file sn st v)) (RVal expect); value_eqb expect ld;
    (* names only: skipping at load time = skipping at save time = pruning norm v *)
-   match st with [] => value_eqb (prune_load (usn ++ sn) [] (norm v)) expect | _ => true end].
+   match st, ust with [], [] => value_eqb (prune_load (usn ++ sn) [] (norm v)) expect | _, _ => true end;
+   (* save-time types only: what is left is exactly norm of the save-pruned graph (C14_skip_types_save) *)
+   match sn, usn, ust with [], [], [] => value_eqb (norm (prune_save [] st v)) expect | _, _, _ => true end;
+   wf_node (save_file sn st v)].
 """
 
 NAMES = ["a", "b", "x", "data", "_dset", "dset", "w0", "meta"]
 ABSENT = ["zzz", "missing", "_nope", "a.b", "0"]
-ABC_TYPES = ["numbers.Number", "numbers.Integral", "numbers.Real", "collections.abc.Sequence", "collections.abc.Mapping",
-             "collections.abc.Set"]
+# abstract base classes of the model's virtual-subclass table (C01_Model.abc_domain): membership by registration
+ABC_TYPES = ["numbers.Number", "numbers.Integral", "numbers.Real", "numbers.Complex", "numbers.Rational",
+             "collections.abc.Sequence", "collections.abc.MutableSequence", "collections.abc.Mapping",
+             "collections.abc.MutableMapping", "collections.abc.Set", "collections.abc.MutableSet"]
 TYPES = ["numpy.ndarray", "builtins.int", "builtins.float", "builtins.str", "builtins.list", "builtins.dict",
          "torch.Tensor", "harness.c01_classes.NodeB", "builtins.bool", "builtins.tuple", "builtins.set"]
 
 
 def gen_skip_graph(r, depth, width, cont_obj=False):
     fields = []
-    for nm in r.sample(NAMES, r.randint(2, width)):
+    names = r.sample(NAMES, r.randint(2, width))
+    cls = r.choice(["NodeA", "NodeB", "NodeC"])
+    if r.random() < 0.15:
+        # attrs-decorated class (with or without slots): declared fields only; a skipped field is simply unset after load
+        cls = r.choice(G.ATTRS_CLASSES)
+        names = r.sample(G.ATTRS_FIELDS, r.randint(2, min(width, len(G.ATTRS_FIELDS))))
+    for nm in names:
         if depth > 0 and r.random() < 0.4:
             v = gen_skip_graph(r, depth - 1, width, cont_obj)
         elif cont_obj and r.random() < 0.3:
@@ -54,7 +66,7 @@ def gen_skip_graph(r, depth, width, cont_obj=False):
             if v[0] == "obj":
                 v = ["int", 1]
         fields.append([nm, v])
-    return ["obj", r.choice(["NodeA", "NodeB", "NodeC"]), fields]
+    return ["obj", cls, fields]
 
 
 def names_in(spec, acc):
@@ -83,13 +95,18 @@ def gen_cases(ctx: Ctx):
         abc = False
         if mode != "none-absent" and j % 9 == 4:
             # abstract base classes: "every attribute that is an INSTANCE of a listed type" includes virtual
-            # subclasses (int is a numbers.Number, list a collections.abc.Sequence) that no MRO lists.  The Coq
-            # model knows concrete types only, so these cases are judged by the oracle alone.
+            # subclasses (int is a numbers.Number, list a collections.abc.Sequence) that no MRO lists: the model
+            # decides them through its virtual-subclass table abcs_of (tied to isinstance() by C01's dispatch rows)
             st_s, abc = r.sample(ABC_TYPES, r.choice([1, 1, 2])), True
+            if r.random() < 0.5:
+                st_s = st_s + r.sample(TYPES, 1)          # an abstract base class next to a concrete type
+        # load-time TYPE skipping (exact type in the code; not part of the property text: correspondence only)
+        st_l = r.sample(TYPES + ["torch.nn.parameter.Parameter", "torch.nn.modules.linear.Linear", "builtins.complex"],
+                        r.choice([1, 1, 2])) if j % 7 == 3 else []
         cases.append({"id": "s%04d" % j, "prop": "C14", "label": "graph", "spec": spec, "cfg": G.gen_cfg(r),
-                      "skip_save_names": sn_s, "skip_save_types": st_s, "skip_load_names": sn_l,
-                      "save_eq_load": (not st_s) and not cont_obj and j % 2 == 0, "container_objects": cont_obj, "mode14": mode,
-                      "dispatch": False, "abc_types": abc})
+                      "skip_save_names": sn_s, "skip_save_types": st_s, "skip_load_names": sn_l, "skip_load_types": st_l,
+                      "save_eq_load": (not st_s) and (not st_l) and not cont_obj and j % 2 == 0, "container_objects": cont_obj,
+                      "mode14": mode, "dispatch": False, "abc_types": abc})
     return cases
 
 
@@ -99,8 +116,10 @@ def run(ctx: Ctx):
                                               "AutoSerialize._deserialize_container", "load"])
     ctx.hash_sources("diffractive_imaging/ptychography.py", ["Ptychography.save"])
     ctx.cov["rule"] = (
-        "cases: attribute-nested object graphs (depth<=3, 8 attribute names recurring at several depths) x skip configuration "
-        "(names present/absent at save time, load time or both; 0-2 types out of 11 at save time) x (store, compression, "
+        "cases: attribute-nested object graphs (depth<=3, 8 attribute names recurring at several depths, plain classes and 15% "
+        "attrs-decorated classes with/without slots) x skip configuration (names present/absent at save time, load time or both; "
+        "0-2 types out of 11 concrete at save time; every 9th case 1-2 of 11 abstract base classes, half of them next to a concrete "
+        "type; every 7th case 1-2 types at LOAD time: correspondence only) x (store, compression, "
         "str|Path, mode); every 11th graph has objects inside containers (outside the quantifier: asymmetry recorded only); "
         "distinct by (spec, skip lists, configuration), non-trivial when at least one present name or type is skipped; "
         "plus Ptychography.save's own skip on a toy reconstruction")
@@ -134,6 +153,11 @@ def _run(ctx: Ctx):
         skipped_present = (set(case["skip_save_names"]) | set(case["skip_load_names"])) & present
         ctx.dist("skip-time/" + case["mode14"])
         ctx.dist("skip-types/%d" % len(case["skip_save_types"]))
+        ctx.dist("skip-load-types/%d" % len(case.get("skip_load_types", [])))
+        if case.get("abc_types"):
+            ctx.dist("skip-types/abstract-base-class")
+        if case["spec"][1] in G.ATTRS_CLASSES:
+            ctx.dist("class/" + case["spec"][1])
         for t in case["skip_save_types"]:
             ctx.dist("skip-type/" + t)
         ctx.dist("store/" + cfg["store"])
@@ -153,11 +177,12 @@ def _run(ctx: Ctx):
             for key, msg in res["diffs"]:       # no model term to decide the domain with: report at once
                 ctx.violation(key, "skip lists [%s]: %s" % (case["id"], msg),
                               {"kind": "case", "case": case, "diffs": res["diffs"][:8]})
-        if res["v"] and res["obs"] and res["ld"] and not res.get("harness_exc") and not case.get("abc_types"):
+        if res["v"] and res["obs"] and res["ld"] and not res.get("harness_exc"):
             from ..impl_C01 import cs, clist
-            exprs.append("chk14 %s %s %s %s %s %s" % (
+            exprs.append("chk14 %s %s %s %s %s %s %s" % (
                 clist(cs(x) for x in res["sn_order"]), clist(cs(x) for x in case["skip_save_types"]),
-                clist(cs(x) for x in case["skip_load_names"]), res["v"], res["obs"], res["ld"]))
+                clist(cs(x) for x in case["skip_load_names"]), clist(cs(x) for x in case.get("skip_load_types", [])),
+                res["v"], res["obs"], res["ld"]))
             idx.append((case, res))
         elif res["v"]:
             exprs.append("[wf_obj %s]" % res["v"])      # only the domain question
@@ -177,7 +202,7 @@ def _run(ctx: Ctx):
         ctx.violation(key, "Ptychography.save skip: " + msg, {"kind": "ptycho", "diffs": pt["diffs"][:8]})
     ctx.log("oracle done; %d model evaluations" % len(exprs))
     vals = ctx.coq_eval("skip", PRE, exprs, shard=8, timeout=900)
-    names = ["wf", "attr_nested", "encode", "decode", "model-skip", "skip-roundtrip", "names-commute"]
+    names = ["wf", "attr_nested", "encode", "decode", "model-skip", "skip-roundtrip", "names-commute", "types-at-save", "written-unique-names"]
     nd = 0
     n_outside = 0
     for (case, res), v in zip(idx, vals):
@@ -206,9 +231,11 @@ def _run(ctx: Ctx):
                         "decode": "load(skip=...) of the written store differs from the model's load_file",
                         "model-skip": "the model's save/load with skipping is not the pruned normal form (theorem instance false)",
                         "skip-roundtrip": "the loaded object differs from the pruned normal form predicted by the model",
-                        "names-commute": "pruning before and after norm differ in the model (theorem instance false)"}[nm]
-                ctx.violation(nm + "-correspondence", "%s [case %s: save names %s types %s, load names %s]" % (
-                    what, case["id"], case["skip_save_names"], case["skip_save_types"], case["skip_load_names"]),
+                        "names-commute": "pruning before and after norm differ in the model (theorem instance false)",
+                        "types-at-save": "save-time type skipping is not norm of the save-pruned graph in the model (theorem instance false)",
+                        "written-unique-names": "the model's written tree has a duplicate member name (theorem instance false)"}[nm]
+                ctx.violation(nm + "-correspondence", "%s [case %s: save names %s types %s, load names %s types %s]" % (
+                    what, case["id"], case["skip_save_names"], case["skip_save_types"], case["skip_load_names"], case.get("skip_load_types", [])),
                     {"kind": "case", "case": case, "diffs": res["diffs"][:8]}, found_input=oracle_failed)
     for case, res in zip(cases, results):
         if G.spec_size(case["spec"]) < 14:
@@ -234,14 +261,17 @@ def replay(ctx: Ctx, path):
     case = rp["case"]
     res = run_case(case)
     print("spec:", json.dumps(case["spec"]))
-    print("save skip names/types:", case["skip_save_names"], case["skip_save_types"], "load skip names:", case["skip_load_names"])
+    print("save skip names/types:", case["skip_save_names"], case["skip_save_types"], "load skip names/types:", case["skip_load_names"],
+          case.get("skip_load_types", []))
     for k, m in res["diffs"]:
         print("oracle: [%s] %s" % (k, m))
     if not res["diffs"]:
         print("oracle: property holds on this case")
     if res.get("v") and res.get("obs") and res.get("ld"):
-        v = ctx.coq_eval("replay", PRE, ["chk14 %s %s %s %s %s %s" % (
+        v = ctx.coq_eval("replay", PRE, ["chk14 %s %s %s %s %s %s %s" % (
             clist(cs(x) for x in res["sn_order"]), clist(cs(x) for x in case["skip_save_types"]),
-            clist(cs(x) for x in case["skip_load_names"]), res["v"], res["obs"], res["ld"])])[0]
-        print("model: wf=%s attr_nested=%s encode=%s decode=%s model-skip=%s skip-roundtrip=%s names-commute=%s" % tuple(v))
+            clist(cs(x) for x in case["skip_load_names"]), clist(cs(x) for x in case.get("skip_load_types", [])),
+            res["v"], res["obs"], res["ld"])])[0]
+        print("model: wf=%s attr_nested=%s encode=%s decode=%s model-skip=%s skip-roundtrip=%s names-commute=%s types-at-save=%s "
+              "written-unique-names=%s" % tuple(v))
     return 1 if res["diffs"] else 0
